@@ -107,9 +107,9 @@ Definition s_da : str := [100;46;97]%N.
 Definition s_db : str := [100;46;98]%N.
 Definition d_plain : decl := {| d_root := pd_plain []; d_subreq := false; d_subs := [] |}.
 Definition d_cb : decl :=
-  {| d_root := pd_plain [{| co_name := s_cb; co_base := s_Base; co_callable := true |}]; d_subreq := false; d_subs := [] |}.
+  {| d_root := pd_plain [{| co_name := s_cb; co_base := s_Base; co_callable := true; co_default := None |}]; d_subreq := false; d_subs := [] |}.
 Definition d_model : decl :=
-  {| d_root := pd_plain [{| co_name := s_model; co_base := s_Base; co_callable := false |}]; d_subreq := false; d_subs := [] |}.
+  {| d_root := pd_plain [{| co_name := s_model; co_base := s_Base; co_callable := false; co_default := None |}]; d_subreq := false; d_subs := [] |}.
 Definition d_sub : decl :=
   {| d_root := pd_plain []; d_subreq := false;
      d_subs := [(s_fit, {| pd_cfg := true; pd_opts := [(s_lr, KInt)]; pd_req := []; pd_cls := []; pd_dc := false |})] |}.
